@@ -7,6 +7,7 @@ import Driver.C18
 import Driver.C19
 import Driver.Engine
 import Driver.Client
+import Driver.C14
 /-!
 Line-protocol driver: one request per line on stdin, one answer per line on stdout.
 Only model files are imported (no proofs, no Mathlib), so this links as a native executable.
@@ -34,6 +35,8 @@ def dispatch (line : String) : String :=
     | "cli" => cmdCli args
     | "setup" => cmdSetup args
     | "ka" => cmdKa args
+    | "lease" => cmdLease args
+    | "announce" => cmdAnnounce args
     | _ => "bad-op"
 
 partial def loop (h : IO.FS.Stream) (out : IO.FS.Stream) : IO Unit := do
